@@ -106,6 +106,9 @@ pub struct Client {
     pub first_result: HashMap<usize, String>,
     /// log index -> state the client was in when the event was first offered
     pub first_offer_state: HashMap<usize, Option<StateKey>>,
+    /// log index -> position of the first offer in this client's delivery sequence
+    pub first_offer_seq: HashMap<usize, usize>,
+    pub offers: usize,
     /// log indices that took effect here (C07 candidates)
     pub effective: BTreeSet<usize>,
     /// transitions: (state before, log idx or usize::MAX for a local merge, state after)
@@ -116,6 +119,8 @@ pub struct Client {
     pub queued_props: HashMap<usize, Vec<usize>>,
     pub restarts: u32,
     pub rollbacks_seen: usize,
+    /// log indices whose delivery rolled the group back and was then refused
+    pub rollback_then_refused: Vec<usize>,
 }
 
 #[derive(Clone, Debug)]
@@ -189,12 +194,15 @@ impl Client {
             seen: HashSet::new(),
             first_result: HashMap::new(),
             first_offer_state: HashMap::new(),
+            first_offer_seq: HashMap::new(),
+            offers: 0,
             effective: BTreeSet::new(),
             transitions: vec![],
             pending_own: HashMap::new(),
             queued_props: HashMap::new(),
             restarts: 0,
             rollbacks_seen: 0,
+            rollback_then_refused: vec![],
         }
     }
 
